@@ -5,6 +5,7 @@ import (
 	"net"
 	"os"
 	"strconv"
+	"syscall"
 	"time"
 )
 
@@ -159,6 +160,9 @@ func (n *Net) Queued(port int) int {
 
 // SetReadDeadline mirrors net.UDPConn.
 func (c *UDPConn) SetReadDeadline(t time.Time) error {
+	if c == nil {
+		return syscall.EINVAL // as net.UDPConn does for a nil receiver
+	}
 	if c.closed {
 		return errClosed
 	}
@@ -175,6 +179,9 @@ func (c *UDPConn) LocalAddr() net.Addr { return c.addr }
 // ReadFromUDP blocks (durably, inside the bubble) until a datagram, the
 // deadline or Close.
 func (c *UDPConn) ReadFromUDP(b []byte) (int, *net.UDPAddr, error) {
+	if c == nil {
+		return 0, nil, syscall.EINVAL
+	}
 	Yield(siteUDPRead)
 	c.Reads++
 	if c.closed {
@@ -234,6 +241,9 @@ func (c *UDPConn) ReadFromUDP(b []byte) (int, *net.UDPAddr, error) {
 
 // Close mirrors net.UDPConn.
 func (c *UDPConn) Close() error {
+	if c == nil {
+		return syscall.EINVAL
+	}
 	Yield(siteUDPClose)
 	if c.closed {
 		return errClosed
